@@ -14,7 +14,9 @@ from ..core import AnalysisError, finish, unparse
 from ..constfold import Folder, Opaque, fold_body, FoldErrorValue
 from ..dataflow import Flow, chain, call_name
 from ..ordtype import weak_orderings, Ordering, Evaluator
-from ..poly import Poly
+from ..poly import Poly, le, lt, eq
+from ..absint import Interp
+from ..terms import Terms, reify, plain, match, V, ANY, show, alternatives
 from ..util import calls_in, qual, formals, returns_of, has_fact
 
 MOD = "rig.type_casts"
@@ -39,93 +41,115 @@ NOT_DECIDED = [
 ]
 
 
+def _wp(e):
+    for n in ast.walk(e):
+        for c in ast.iter_child_nodes(n):
+            c._parent = n
+    ast.fix_missing_locations(e)
+    return e
+
+
+def _poly(fl, t):
+    """Linear/pow2 normal form of a value term (over the function's inputs)."""
+    return fl.sym(_wp(reify(t)), fl.cfg.entry)
+
+
+def _def_node(T, nested):
+    for n in T.cfg.nodes:
+        if n.kind == "stmt" and n.ast is nested:
+            return n
+    return T.cfg.exit
+
+
 def r1_scalar(program, rep):
+    """The clamp is decided semantically: the outer function is folded for
+    every format to find which captured values are the bounds, and the inner
+    function is interpreted in the three cases v < lo, lo <= v <= hi, v > hi
+    (whatever mixture of min/max calls and branches it is written with)."""
     fn = program.get(MOD + ":float_to_fp")
     inner = program.get(MOD + ":float_to_fp.bitsk")
     inst = qual(inner)
     fl = Flow(fn)
+    T = Terms(fn)
     signed, n_bits, n_frac = formals(fn)
     folder = Folder(program)
-    bad = []
+    TI = Terms(inner, outer=(T, _def_node(T, inner)))
+    free = sorted(set(n.id for n in ast.walk(inner)
+                      if isinstance(n, ast.Name) and
+                      isinstance(n.ctx, ast.Load) and
+                      any(b_.var == n.id for b_ in T.binds) and
+                      not any(b_.var == n.id for b_ in TI.binds)))
+    hi_names, lo_names = set(free), set(free)
     n = 0
     for b in range(1, 65):
         for sg in (True, False):
             env = fold_body(folder, fn, {signed: sg, n_bits: b, n_frac: 0})
-            mx, mn = env.get("max_v"), env.get("min_v")
             wmx = (1 << (b - 1)) - 1 if sg else (1 << b) - 1
             wmn = -(1 << (b - 1)) if sg else 0
             n += 1
-            if (mx, mn) != (wmx, wmn) or isinstance(mx, bool):
-                bad.append((sg, b, mn, mx))
-    rep.check(not bad, "C16-R1", qual(fn), "scalar clamp bounds are the "
-              "format's extremes (2^(n-1)-1 / -2^(n-1) signed, 2^n-1 / 0 "
-              "unsigned) for every width 1..64 and both signednesses (%d "
-              "formats folded)" % n, construct="scalar bounds %s" % (
-                  bad[:2],), node=fn,
-              fail="float_to_fp clamps at the wrong bounds for %d formats, "
-                   "e.g. (signed, bits, min, max) = %s" % (len(bad),
-                                                          bad[:2]))
-    p2 = lambda e: fl._pow2(e)   # noqa
-    scale = [d for d in fl.defs if d.var == "scale" and d.mode == "assign"]
-    rep.check(len(scale) == 1 and fl.sym(scale[0].value, scale[0].node) ==
-              p2(Poly.atom(n_frac)), "C16-R1", qual(fn),
-              "scale = 2 ** n_frac", construct="scalar scale", node=fn)
-    # inner: returned clamp over (int_val, min_v, max_v)
-    ifl = Flow(inner)
-    rets = returns_of(inner)
-    if len(rets) != 1:
-        raise AnalysisError("bitsk: one return expected")
-    e = rets[0].value
-    names = sorted(set(n.id for n in ast.walk(e) if isinstance(n, ast.Name)
-                       and n.id not in ("max", "min", "int", "float")))
-    valname = [n for n in names if n not in ("min_v", "max_v")]
-    okshape = set(names) >= {"min_v", "max_v"} and len(valname) == 1 and \
-        not any(isinstance(n, ast.Call) and call_name(n)[0] in ("int",
-                                                                 "float")
-                for n in ast.walk(e))
-    rep.check(okshape, "C16-R1", inst, "the value returned is a min/max "
-              "expression over the truncated value and the integer bounds "
-              "(no conversion after clamping)",
-              construct="clamp expression %s" % unparse(e), node=rets[0],
-              fail="the returned value %s is not a clamp of the truncated "
-                   "integer between the integer bounds (e.g. clamping in "
-                   "floating point and truncating afterwards lets values "
-                   "through for wide formats)" % unparse(e))
-    if okshape:
-        v = valname[0]
-        terms = ["v", "lo", "hi"]
-        bad = []
-        n = 0
-        for ranks in weak_orderings(3):
-            o = Ordering(terms, ranks)
-            r = o.rank
-            if r["lo"] > r["hi"]:
-                continue
-            n += 1
-            env = {v: Poly.atom("v"), "min_v": Poly.atom("lo"),
-                   "max_v": Poly.atom("hi")}
-            got = Evaluator(inner, o, env).ev(e)
-            want_t = "lo" if r["v"] < r["lo"] else "hi" if r["v"] > r["hi"] \
-                else "v"
-            if o.sign(got - Poly.atom(want_t)) != 0:
-                bad.append((ranks, got))
-        rep.check(not bad, "C16-R1", inst, "the expression is clamp(v, min, "
-                  "max) on all %d orderings with min <= max" % n,
-                  construct="clamp orderings", node=rets[0],
-                  fail="not a clamp: %s" % (bad[:2],))
-        # the clamped value is int(scale * value)
-        ds = ifl.reaching(v, ifl.cfg.node_of(rets[0]))
-        okt = len(ds) == 1 and isinstance(ds[0].value, ast.Call) and \
-            call_name(ds[0].value)[0] == "int" and \
-            isinstance(ds[0].value.args[0], ast.BinOp) and \
-            isinstance(ds[0].value.args[0].op, ast.Mult) and \
-            {unparse(ds[0].value.args[0].left),
-             unparse(ds[0].value.args[0].right)} == {"scale",
-                                                    formals(inner)[0]}
-        rep.check(okt, "C16-R1", inst, "the clamped value is int(scale * "
-                  "value): truncation toward zero, in exact integers",
-                  construct="truncate before clamp", node=inner)
-    rep.floor("C16-R1", 4)
+            for nm in free:
+                v = env.get(nm)
+                if isinstance(v, bool) or v != wmx:
+                    hi_names.discard(nm)
+                if isinstance(v, bool) or v != wmn:
+                    lo_names.discard(nm)
+    okb = len(hi_names) >= 1 and len(lo_names) >= 1
+    rep.check(okb, "C16-R1", qual(fn), "the values the converter closes "
+              "over include the format's extremes (2^(n-1)-1 / -2^(n-1) "
+              "signed, 2^n-1 / 0 unsigned) for every width 1..64 and both "
+              "signednesses (%d formats folded)" % n,
+              construct="scalar bounds", node=fn,
+              fail="none of the values captured by float_to_fp's converter "
+                   "(%s) folds to the format's %s for all %d formats" % (
+                       free, "maximum" if not hi_names else "minimum", n))
+    # scale = 2 ** n_frac, the clamped value is int(scale * value)
+    val = formals(inner)[0]
+    trunc = None
+    for c in calls_in(inner, "int"):
+        if len(c.args) == 1:
+            t = TI.term(c.args[0], TI.cfg.node_containing(c))
+            if t[0] == "binop" and t[1] == "Mult" and \
+                    ("param", val) in (t[2], t[3]):
+                sc = t[3] if t[2] == ("param", val) else t[2]
+                if _poly(fl, sc) == fl._pow2(Poly.atom(n_frac)):
+                    trunc = c
+    rep.check(trunc is not None, "C16-R1", inst, "the value is scaled by "
+              "2 ** n_frac and truncated with int(): truncation toward "
+              "zero, in exact integers", construct="truncate before clamp",
+              node=inner)
+    ok = okb and trunc is not None
+    detail = ""
+    if ok:
+        HI, LO = sorted(hi_names)[0], sorted(lo_names)[0]
+        it0 = Interp(inner)
+        V = it0.sym(trunc, it0.cfg.node_containing(trunc))
+        hi, lo = Poly.atom(HI), Poly.atom(LO)
+        cases = [("below", [lt(V, lo)], lo), ("inside", [le(lo, V),
+                                                         le(V, hi)], V),
+                 ("above", [lt(hi, V)], hi)]
+        for name, cons, want in cases:
+            it = Interp(inner, entry_cons=[le(lo, hi)] + cons)
+            reached = 0
+            for r in returns_of(inner):
+                node = it.cfg.node_of(r)
+                if not it.reachable(node):
+                    continue
+                reached += 1
+                got = it.sym(r.value, node)
+                if not it.holds_at(node, eq(got, want)):
+                    ok = False
+                    detail = "%s the range: returns %s" % (name,
+                                                           unparse(r.value))
+            ok = ok and reached >= 1
+    rep.check(ok, "C16-R1", inst, "the converter returns clamp(int(scale * "
+              "value), min, max): the bound when the truncated value lies "
+              "outside, the truncated value itself otherwise (no "
+              "conversion after clamping)", construct="clamp", node=inner,
+              fail="the value returned is not the truncated integer "
+                   "clamped between the integer bounds (%s): e.g. clamping "
+                   "in floating point and truncating afterwards lets "
+                   "values through for wide formats" % detail)
+    rep.floor("C16-R1", 3)
 
 
 def r2_array(program, folder, rep):
@@ -158,32 +182,41 @@ def r2_array(program, folder, rep):
             rep.check(v == w, "C16-R2", qual(cls), "(%s, %d) -> %s" % (
                 "signed" if s else "unsigned", b, w),
                 construct="dtype (%s,%d) = %s" % (s, b, v), node=cls)
-    dt = [d for d in fl.defs if d.var == "self.dtype"]
-    rep.check(len(dt) == 1 and unparse(dt[0].value) == "self.dtypes[%s, %s]"
-              % (signed, n_bits), "C16-R2", inst, "the dtype is looked up "
+    TI_ = Terms(init)
+    SELF = ("param", "self")
+
+    def attr_bind(name):
+        bs = [b_ for b_ in TI_.binds if b_.var == "self." + name and
+              b_.mode == "assign"]
+        return TI_._bind_term(bs[0]) if len(bs) == 1 else None
+    rep.check(attr_bind("dtype") == ("item", ("attr", SELF, "dtypes"),
+                                     ("tuple", ("param", signed),
+                                      ("param", n_bits))),
+              "C16-R2", inst, "the dtype is looked up "
               "with (signed, n_bits)", construct="dtype lookup", node=init)
-    nf = [d for d in fl.defs if d.var == "self.n_frac"]
     call = program.get(MOD + ":NumpyFloatToFixConverter.__call__")
+    C = Terms(call)
     cfl = Flow(call)
-    okc = False
     vals = formals(call)[1]
-    steps = [d for d in cfl.defs if d.mode == "assign"]
-    if len(steps) >= 2:
-        a, b = steps[0], steps[1]
-        okc = cfl.sym(a.value, a.node) == Poly.atom(vals) * cfl._pow2(
-            Poly.atom("self.n_frac")) and isinstance(b.value, ast.Call) and \
-            call_name(b.value)[0] == "clip" and \
-            [unparse(x) for x in b.value.args] == [a.var, "self.min_value",
-                                                   "self.max_value"]
-    rep.check(okc and len(nf) == 1 and chain(nf[0].value) == n_frac,
+    rets = [C.term(r.value) for r in returns_of(call) if r.value is not None]
+    okc = okr = False
+    if len(rets) == 1:
+        t = plain(rets[0])
+        m = match(("call", ("attr", ("global", "np"), "array"), (V("x"),),
+                   V("kw")), t)
+        if m is not None:
+            kw = dict(m["kw"])
+            okr = kw.get("dtype") == ("attr", SELF, "dtype")
+            m2 = match(("call", ("attr", ("global", "np"), "clip"),
+                        (V("v"), ("attr", SELF, "min_value"),
+                         ("attr", SELF, "max_value")), ()), m["x"])
+            if m2 is not None:
+                okc = _poly(cfl, m2["v"]) == Poly.atom(vals) * cfl._pow2(
+                    Poly.atom("self.n_frac"))
+    rep.check(okc and attr_bind("n_frac") == ("param", n_frac),
               "C16-R2", qual(call), "array path: values * 2**n_frac, then "
               "clip(min_value, max_value), then cast",
               construct="array pipeline", node=call)
-    rets = returns_of(call)
-    okr = len(rets) == 1 and isinstance(rets[0].value, ast.Call) and \
-        call_name(rets[0].value)[0] == "array" and any(
-            k.arg == "dtype" and unparse(k.value) == "self.dtype"
-            for k in rets[0].value.keywords)
     rep.check(okr, "C16-R2", qual(call), "the clipped values are cast to "
               "the sized integer type", construct="array cast", node=call)
     return widths, bounds, fl, n_bits
@@ -234,64 +267,64 @@ def r3_representable(program, folder, rep, widths, init_fl, n_bits):
 def r4_inverse(program, rep):
     fn = program.get(MOD + ":fp_to_float")
     fl = Flow(fn)
+    T = Terms(fn)
     nf = formals(fn)[0]
-    sc = [d for d in fl.defs if d.var == "scale"]
-    ok = len(sc) == 1 and fl.sym(sc[0].value, sc[0].node) == fl._pow2(
-        -Poly.atom(nf))
     inner = program.get(MOD + ":fp_to_float.kbits")
-    r = returns_of(inner)
-    ok = ok and len(r) == 1 and isinstance(r[0].value, ast.BinOp) and \
-        isinstance(r[0].value.op, ast.Mult) and \
-        {unparse(r[0].value.left), unparse(r[0].value.right)} == \
-        {"scale", formals(inner)[0]}
+    TI = Terms(inner, outer=(T, _def_node(T, inner)))
+    v = ("param", formals(inner)[0])
+    rets = [TI.term(r.value) for r in returns_of(inner)
+            if r.value is not None]
+    ok = len(rets) == 1 and rets[0][0] == "binop" and rets[0][1] == "Mult" \
+        and v in (rets[0][2], rets[0][3])
+    if ok:
+        sc = rets[0][3] if rets[0][2] == v else rets[0][2]
+        ok = _poly(fl, sc) == fl._pow2(-Poly.atom(nf))
     rep.check(ok, "C16-R4", qual(fn), "fp_to_float multiplies by 2 ** "
               "(-n_frac)", construct="scalar inverse scale", node=fn)
     call = program.get(MOD + ":NumpyFixToFloatConverter.__call__")
     cfl = Flow(call)
-    r = returns_of(call)
-    ok = len(r) == 1 and isinstance(r[0].value, ast.BinOp) and \
-        isinstance(r[0].value.op, ast.Div) and \
-        chain(r[0].value.left) == formals(call)[1] and \
-        cfl.sym(r[0].value.right, cfl.cfg.node_of(r[0])) == cfl._pow2(
-            Poly.atom("self.n_frac"))
+    C = Terms(call)
+    rets = [C.term(r.value) for r in returns_of(call) if r.value is not None]
+    ok = len(rets) == 1 and rets[0][0] == "binop" and rets[0][1] == "Div" \
+        and rets[0][2] == ("param", formals(call)[1]) and \
+        _poly(cfl, rets[0][3]) == cfl._pow2(Poly.atom("self.n_frac"))
     init = program.get(MOD + ":NumpyFixToFloatConverter.__init__")
-    ifl = Flow(init)
-    nfd = [d for d in ifl.defs if d.var == "self.n_frac"]
-    ok = ok and len(nfd) == 1 and chain(nfd[0].value) == formals(init)[1]
+    I = Terms(init)
+    nfd = [b_ for b_ in I.binds if b_.var == "self.n_frac"]
+    ok = ok and len(nfd) == 1 and I._bind_term(nfd[0]) == (
+        "param", formals(init)[1])
     rep.check(ok, "C16-R4", qual(call), "the array inverse divides by 2 ** "
               "n_frac", construct="array inverse scale", node=call)
     # deprecated fix_to_float: sign-bit test and adjustment
     fn = program.get(MOD + ":fix_to_float")
     inner = program.get(MOD + ":fix_to_float.kbits")
-    ifl = Flow(inner)
+    F = Terms(fn)
+    ffl = Flow(fn)
+    K = Terms(inner, outer=(F, _def_node(F, inner)))
     signed, n_bits, n_frac = formals(fn)
-    v = formals(inner)[0]
+    vname = formals(inner)[0]
+    VAL = ("param", vname)
     NB = Poly.atom(n_bits)
-    adj = [d for d in ifl.defs if d.var == v and d.mode == "aug"]
-    ok_adj = len(adj) == 1 and isinstance(adj[0].value.op, ast.Sub) and \
-        ifl.sym(adj[0].value.value, adj[0].node) == ifl._pow2(NB)
-    ok_test = False
+    ok_adj = ok_test = False
     detail = ""
-    if adj:
-        for cond, pol, a in ifl.facts(adj[0].node):
-            if not pol:
+    for b_ in K.binds:
+        if b_.var != vname or b_.mode == "param":
+            continue
+        t = K._bind_term(b_)
+        if not (t[0] == "binop" and t[1] == "Sub" and t[2] == VAL):
+            continue
+        ok_adj = _poly(ffl, t[3]) == ffl._pow2(NB)
+        for c, pol in K.all_facts(b_.node):
+            if not pol or c == ("param", signed):
                 continue
-            t = unparse(cond)
-            if t == signed:
-                continue
-            detail = t
-            if isinstance(cond, ast.BinOp) and isinstance(cond.op,
-                                                          ast.BitAnd):
-                sides = [cond.left, cond.right]
-                bit = [x for x in sides if chain(x) != v]
-                ok_test = len(bit) == 1 and ifl.sym(bit[0], a) == \
-                    ifl._pow2(NB - 1)
-            elif isinstance(cond, ast.Compare) and len(cond.ops) == 1 and \
-                    chain(cond.left) == v:
-                rhs = ifl.sym(cond.comparators[0], a)
-                opn = type(cond.ops[0]).__name__
-                ok_test = (opn == "GtE" and rhs == ifl._pow2(NB - 1)) or \
-                    (opn == "Gt" and rhs == ifl._pow2(NB - 1) - 1)
+            detail = show(c)
+            if c[0] == "binop" and c[1] == "BitAnd" and VAL in (c[2], c[3]):
+                bit = c[3] if c[2] == VAL else c[2]
+                ok_test = _poly(ffl, bit) == ffl._pow2(NB - 1)
+            elif c[0] == "cmp" and c[1] in ("Lt", "LtE") and c[3] == VAL:
+                rhs = _poly(ffl, c[2])
+                ok_test = (c[1] == "LtE" and rhs == ffl._pow2(NB - 1)) or \
+                    (c[1] == "Lt" and rhs == ffl._pow2(NB - 1) - 1)
     rep.check(ok_adj and ok_test, "C16-R4", qual(inner), "a word is "
               "negative iff its sign bit (bit n_bits-1) is set; then 2 ** "
               "n_bits is subtracted (two's complement)",
@@ -300,11 +333,23 @@ def r4_inverse(program, rep):
                    "the sign-bit test: the most negative word (only the "
                    "sign bit set) decodes as positive" % detail)
     fn2 = program.get(MOD + ":float_to_fix")
+    in2 = program.get(MOD + ":float_to_fix.bitsk")
+    F2 = Terms(fn2)
     f2 = Flow(fn2)
-    mk = [d for d in f2.defs if d.var == "mask"]
-    okm = len(mk) == 1 and isinstance(mk[0].value, ast.Call) and \
-        f2.sym(mk[0].value.args[0], mk[0].node) == f2._pow2(
-            Poly.atom(formals(fn2)[1])) - 1
+    K2 = Terms(in2, outer=(F2, _def_node(F2, in2)))
+    rets = [K2.term(r.value) for r in returns_of(in2) if r.value is not None]
+    okm = False
+    if len(rets) == 1 and rets[0][0] == "binop" and rets[0][1] == "BitAnd":
+        for m_ in (rets[0][2], rets[0][3]):
+            mm = plain(m_)
+            if mm[0] == "call" and mm[1] == ("global", "int") and \
+                    len(mm[2]) == 1:
+                mm = mm[2][0]
+            try:
+                if _poly(f2, mm) == f2._pow2(Poly.atom(formals(fn2)[1])) - 1:
+                    okm = True
+            except AnalysisError:
+                pass
     rep.check(okm, "C16-R4", qual(fn2), "the deprecated encoder masks the "
               "word to n_bits", construct="float_to_fix mask", node=fn2)
 
